@@ -114,7 +114,11 @@ def parse_run_line(line):
     return r
 
 
-def relevant(prop, vid, variant="", faults=None):
+def relevant(prop, vid, variant="", faults=None, probes=None):
+    if prop == "C07" and probes and (probes.get("reg_failed_event") or probes.get("try_failed") or probes.get("reg_failed_ext")):
+        # "a registration call that reports failure leaves the loop exactly as it was": whatever goes
+        # wrong in a run after such a failure is C07's to report, whichever oracle notices it
+        return True
     if prop == "C15" and ((variant and variant != "base") or faults):
         # every guarantee of the other properties must survive every enumerated fault variant, and
         # every base plan in which a fault of the plan itself (absent facility, EINTR) fired
@@ -167,7 +171,7 @@ class Agg:
         self.switches += int(R.get("switches", 0))
         self.secs += r["secs"]
         if r["viol"]:
-            rel = [v for v in r["viol"] if relevant(self.prop, v[0], r["variant"], r["faults"])]
+            rel = [v for v in r["viol"] if relevant(self.prop, v[0], r["variant"], r["faults"], r["probes"])]
             if rel:
                 self.viol.append((flavour, r))
             else:
@@ -303,7 +307,7 @@ def handle_violations(agg, exes, outdir, prop, tier):
     kf = known_findings()
     os.makedirs(os.path.join(OUTROOT, "replays"), exist_ok=True)
     for flavour, r in agg.viol:
-        rel = [v for v in r["viol"] if relevant(prop, v[0], r["variant"], r["faults"])]
+        rel = [v for v in r["viol"] if relevant(prop, v[0], r["variant"], r["faults"], r["probes"])]
         vid, desc = rel[0]
         # one report per (id, stable description)
         sig = vid + "|" + re.sub(r"\d+", "N", desc)[:80]
